@@ -50,7 +50,7 @@ ASSUMPTIONS = [
 FLOORS = {
     'has:rejected-then-ok': 0.15,
     'has:future-chain': 0.002,
-    'has:followed-half-trained': 0.01,
+    'has:refused-train-label': 0.01,
     'op:illegal': 0.22,
     'op:segment-ok': 0.1,
     'perm:all-legal': 0.003,
@@ -177,6 +177,28 @@ def multiedge_history_spec():
             'clean': st.just(False),
         }
     )
+
+
+@st.composite
+def diamond_history_spec(draw):
+    """Histories that begin by wiring a fan-out/fan-in (a 1:2 splitter, two branches of one or two workers, a 2:1 merger,
+    straight or crossed, the subscribe calls in any order), trace it head-to-tail and copy it; then free calls. Sibling
+    branches between one head and one tail are what a path-wise segment copy has to get right (seeded change C11-8)."""
+    w11 = lambda: {'k': 'w', 'st': draw(st.booleans()), 'i': 1, 'o': 1}  # noqa: E731
+    long = draw(st.booleans())
+    cross = int(draw(st.booleans()))
+    nodes = [{'k': 'w', 'st': False, 'i': 1, 'o': 2}, w11(), w11(), {'k': 'w', 'st': False, 'i': 2, 'o': 1}] + ([w11()] if long else [])
+    nodes += draw(st.lists(node_spec(futures=0.2), max_size=1))
+
+    def sub(s, sp, pub, pp):
+        return {'op': 'subscribe', 'sub': s, 'sport': sp, 'pub': pub, 'pport': pp, 'sk': 'a', 'pk': 'a'}
+
+    wires = [sub(1, 0, 0, 0), sub(2, 0, 0, 1), sub(3, 1 - cross, 2, 0)]
+    wires += [sub(4, 0, 1, 0), sub(3, cross, 4, 0)] if long else [sub(3, cross, 1, 0)]
+    wires = list(draw(st.permutations(wires)))
+    kinds = ['subscribe', 'segment', 'segment', 'copy', 'copy', 'extend', 'retry']
+    ops = wires + [{'op': 'segment', 'head': 0, 'tail': 3}, {'op': 'copy', 'seg': 0}] + draw(st.lists(op_spec(kinds), max_size=5))
+    return {'nodes': nodes, 'ops': ops, 'clean': False}
 
 
 @st.composite
@@ -411,10 +433,15 @@ def run_history(ctx, spec, nodes, ops, clean: bool, stats: dict):
                 ctx.fail(spec, 'outcome', f'legal-refused:{_first_words(exc)}', f'{rop} raised {exc!r}', tags + [f'op:{rop["op"]}'])
                 return None
             if verdict == 'illegal':
+                if rop['op'] == 'train' and 'label-link' in exp.tags and 'via-future' not in exp.tags:
+                    stats['refused-train-label'] = True  # generator-side class (does not depend on what the code left behind)
                 after = real.snapshot()
                 if after != before:
-                    ctx.fail(spec, 'atomic', exp.reason, f'{rop} raised {exc!r} but changed: {_diff(before, after)}', tags)
                     followed = _follow_label_link(model, real, rop, exp)
+                    # the recorded finding leaves one definite state (Train port connected and registered); a refused
+                    # train-with-label call that leaves anything else is a different defect and gets its own key
+                    other = ['other-residue'] if followed is None and rop['op'] == 'train' and 'label-link' in exp.tags and 'via-future' not in exp.tags else []
+                    ctx.fail(spec, 'atomic', exp.reason, f'{rop} raised {exc!r} but changed: {_diff(before, after)}', tags + other)
                     if followed is None:
                         return None
                     # the recorded finding (refused Worker.train keeps its Train port) has a definite outcome: the
@@ -536,6 +563,8 @@ def _classes(prefix, stats, final):
         classes.append('has:avoided-shape')
     if stats.get('followed-label-link'):
         classes.append('has:followed-half-trained')
+    if stats.get('refused-train-label'):
+        classes.append('has:refused-train-label')
     if 'stopped' in stats:
         classes.append(f'stopped:{stats["stopped"]}')
     for k in sorted(stats['kinds']):
@@ -618,6 +647,7 @@ def campaigns(ctx):
         Campaign('groups', group_history_spec(), check_history, 600, 4000),
         Campaign('multiedge', multiedge_history_spec(), check_history, 600, 4000),
         Campaign('loops', loop_history_spec(), check_history, 500, 3000),
+        Campaign('diamond', diamond_history_spec(), check_history, 300, 2000),
     ]
 
 
